@@ -9,7 +9,7 @@ import vp.chpatch  # noqa
 import json
 import os
 
-from bumpver import cli, config, vcs, rewrite, v2rewrite, v1rewrite, v2version, v1version
+from bumpver import cli, config, vcs, rewrite, v2rewrite, v1rewrite, v2version, v1version, parse
 from bumpver.patterns import Pattern
 from vp.memfs import MemFS, NS
 from vp.fakere import ByTextRe
@@ -86,6 +86,8 @@ class RecAPI:
 
 
 def _mk(exists, matches, order, commit):
+    from vp.hygiene import reset_mutable_defaults
+    reset_mutable_defaults(v1rewrite, v2rewrite, rewrite, parse)
     files = {}
     file_patterns = {}
     for idx in ORDERS[order]:
